@@ -729,9 +729,11 @@ func runFileSerial(file0 *string, k int) gen.Case {
 		Obs: map[string]interface{}{"results": obs, "final": final}}
 }
 
-// runFileStress: concurrent NewRunNumber calls on the file backend, repeated (from a fresh "0"
-// file) until a number has been returned twice or maxRounds is reached. The race is in the
-// operating system's hands, so the outcome is only ever reported, never required.
+// runFileStress: concurrent NewRunNumber calls of ONE Service on the file backend, repeated (from
+// a fresh "0" file) until a number has been returned twice or maxRounds is reached. Since the
+// repair of C07-a the read-modify-write runs under the Service's mutex: no duplicate, no failed
+// call, and the file ends at goroutines*calls (theorems C07_file_backend_unique / _dense). The
+// unrepaired code returns dozens of numbers twice in the first round (monitor code 6).
 func runFileStress(goroutines, calls, maxRounds int) gen.Case {
 	dups, returned, errs, rounds := 0, 0, 0, 0
 	var example uint32
@@ -772,11 +774,16 @@ func runFileStress(goroutines, calls, maxRounds int) gen.Case {
 			}
 		}
 	}
-	term := fmt.Sprintf("CFileStress %d %d %d", goroutines, calls, dups)
+	var final *string
+	if b, err := os.ReadFile(counterFile()); err == nil {
+		s := string(b)
+		final = &s
+	}
+	term := fmt.Sprintf("CFileStress %d %d %d %d %s", goroutines, calls, dups, errs, optStr(final))
 	return gen.Case{Term: term, Kind: "file-stress",
 		Input: fileInput{Goroutines: goroutines, Calls: calls, Rounds: maxRounds},
 		Obs: map[string]interface{}{"rounds_run": rounds, "returned": returned, "errors": errs,
-			"duplicates": dups, "smallest_duplicated": example}}
+			"duplicates": dups, "smallest_duplicated": example, "final": final}}
 }
 
 // ---------------------------------------------------------------- generators
@@ -867,7 +874,7 @@ type corpusCase struct {
 // decision point
 func corpus() []corpusCase {
 	cs := []corpusCase{
-		// C07_wrap_refuted witness
+		// regression of C07-b (was the C07_wrap_refuted witness: 4294967295 then 0): the second start must fail
 		{1, 2, []stepJ{put("4294967294"), sv(0), sv(0), sv(1), sv(1)}},
 		// C07_needs_monotone_foreign_writers witness
 		{0, 2, []stepJ{put("5"), sv(0), sv(0), put("5"), sv(1), sv(1)}},
@@ -1026,8 +1033,16 @@ func main() {
 		for _, c := range corpus() {
 			cases = append(cases, runSched(f, c.clock0, c.k, c.steps, nil, 0, "sched-corpus"))
 		}
-		// the file-backend race (known finding C07-a when a duplicate shows)
+		// regression of C07-a: the file-backend race (a duplicate is monitor code 6)
 		cases = append(cases, runFileStress(8, 200, 25))
+		// regression of C07-b on the file backend: the calls at 2^32-1 must fail and leave the file alone
+		for _, c := range []struct {
+			file0 string
+			k     int
+		}{{"4294967294", 3}, {"4294967295", 2}, {"04294967295", 1}, {"4294967293", 4}} {
+			f0 := c.file0
+			cases = append(cases, runFileSerial(&f0, c.k))
+		}
 		nSched := o.N * 50 / 100
 		nHost := o.N * 10 / 100
 		nEnv := o.N * 22 / 100
